@@ -22,6 +22,9 @@ package nsqd
 //@   ensures[backend-error-returned] result == kBqEmptyErr
 //@   ensures[discarded-not-persisted] backendWrites == old(backendWrites) && topicPuts == old(topicPuts)
 //@   ensures[drain-only] sent(t.memoryMsgChan) == old(sent(t.memoryMsgChan)) && recvd(t.memoryMsgChan) >= old(recvd(t.memoryMsgChan))
+//   (round 4, area B; C08 "emptying discards everything queued ... at that moment") the drain ended because the memory queue was seen
+//   empty (the select took `default`), and nothing was received or sent on it afterwards
+//@   ensures[memory-queue-seen-empty] drained(t.memoryMsgChan)
 //@   ensures[counters-untouched] t.messageCount == old(t.messageCount) && t.messageBytes == old(t.messageBytes)
 //@   ensures[backend-verdict] result == jBackendEmptyErr
 //@   modifies kBqEmpties, chanstore(*Message)
